@@ -53,6 +53,20 @@ type scase struct {
 	StreamNames bool `json:"stream_names,omitempty"`
 	// RelRoot: Params.WorkdirRoot is a relative path
 	RelRoot bool `json:"rel_root,omitempty"`
+	// DupSpell: an earlier entry "g0" and the effective first golden spelled
+	// "./g0" name the same file; the later one is on disk and is "this entry"
+	DupSpell bool `json:"dup_spell,omitempty"`
+	// Noncanon: the script file is valid but not in the form Format writes (a
+	// padded marker line, no final newline after the last entry)
+	Noncanon bool `json:"noncanon,omitempty"`
+}
+
+// entryName is the name of the i-th golden entry as written in the archive.
+func entryName(c scase, i int) string {
+	if c.DupSpell && i == 0 {
+		return "./g0"
+	}
+	return goldenName(c, i) + c.Spell
 }
 
 // goldenName is the name the script uses for its i-th golden file.
@@ -87,6 +101,12 @@ func (c scase) String() string {
 	}
 	if c.RelRoot {
 		p = append(p, "relative-work-root")
+	}
+	if c.DupSpell {
+		p = append(p, "entry-g0-then-entry-./g0")
+	}
+	if c.Noncanon {
+		p = append(p, "script-not-in-Format's-form")
 	}
 	for _, l := range c.Lines {
 		m := "mismatch"
@@ -128,7 +148,7 @@ func build(c scase) (string, bool) {
 	var files []txtar.File
 	files = append(files, txtar.File{Name: "pre", Data: []byte("untouched pre\n")})
 	script.WriteString("# generated\n")
-	if c.Dup {
+	if c.Dup || c.DupSpell {
 		files = append(files, txtar.File{Name: "g0", Data: []byte("SHADOWED\n")})
 	}
 	for i, l := range c.Lines {
@@ -160,9 +180,9 @@ func build(c scase) (string, bool) {
 			fmt.Fprintf(&script, "mkgolden ../outside%d %v %d\nemit stdout %d\ncmp stdout ../outside%d\n", i, l.Match, l.Content, l.Content, i)
 		}
 		if l.Kind != "outside" {
-			files = append(files, txtar.File{Name: g + c.Spell, Data: []byte(golden)})
+			files = append(files, txtar.File{Name: entryName(c, i), Data: []byte(golden)})
 		} else {
-			files = append(files, txtar.File{Name: g + c.Spell, Data: []byte("decoy, never compared\n")})
+			files = append(files, txtar.File{Name: entryName(c, i), Data: []byte("decoy, never compared\n")})
 		}
 		files = append(files, txtar.File{Name: fmt.Sprintf("mid%d", i), Data: []byte(fmt.Sprintf("untouched %d\n> keep\n", i))})
 	}
@@ -187,7 +207,12 @@ func build(c scase) (string, bool) {
 		fmt.Fprintf(&script, "%s\ncmp pre post\n", c.End)
 	}
 	script.WriteString("\n\n")
-	return string(txtar.Format(&txtar.Archive{Comment: []byte(script.String()), Files: files})), true
+	text := string(txtar.Format(&txtar.Archive{Comment: []byte(script.String()), Files: files}))
+	if c.Noncanon {
+		text = strings.Replace(text, "-- pre --", "--   pre   --", 1)
+		text = strings.TrimSuffix(text, "\n")
+	}
+	return text, true
 }
 
 var runSeq int64
@@ -274,7 +299,7 @@ func verify(dir, file, text string, c scase, res *tsh.Result, st *counters) stri
 	updates := map[string]string{}
 	unquotable := false
 	for i, l := range c.Lines {
-		g := goldenName(c, i) + c.Spell
+		g := entryName(c, i)
 		act := contents[l.Content]
 		equal := l.Match
 		if wantFail {
@@ -555,6 +580,20 @@ func realMain() {
 			}
 		}
 	}
+	// an earlier entry g0 and the golden ./g0: two spellings of one file
+	for _, a := range dupLines {
+		cases = append(cases, scase{Lines: []cmpLine{a}, DupSpell: true})
+		for _, b := range dupLines {
+			cases = append(cases, scase{Lines: []cmpLine{a, b}, DupSpell: true})
+		}
+	}
+	// a script file that Format would write differently
+	for _, a := range dupLines {
+		cases = append(cases, scase{Lines: []cmpLine{a}, Noncanon: true})
+		for _, b := range dupLines {
+			cases = append(cases, scase{Lines: []cmpLine{a, b}, Noncanon: true})
+		}
+	}
 	// the work-directory root given as a relative path
 	for _, a := range dupLines {
 		cases = append(cases, scase{Lines: []cmpLine{a}, RelRoot: true})
@@ -633,7 +672,7 @@ func realMain() {
 	wg.Wait()
 	r.Set("evaluations", done)
 	r.Set("distinct_nontrivial", st.updated)
-	r.Set("rule", "every script with 1 or 2 comparison lines (thorough: 3 over a reduced alphabet) from 7 kinds (cmp stdout / stderr / file against an archive golden, the same golden through another path spelling, negated cmp, cmpenv, cmp against a file outside the archive) x 14 actual contents (empty, no final newline, marker lines, a CRLF marker line, lines that start like a marker but are none, quoted-looking, CRLF, unquotable) x golden matching or not; untouched entries before, between and after; batches of two scripts in one RunT call; archives that repeat the first golden's name; scripts ended early by stop after the comparisons; scripts that make their first comparison twice; golden entries whose archive name holds a variable reference ($exe, ${nosuchvar}) that expands to nothing; golden entries named stdout / stderr / ttyout; Params.WorkdirRoot given as a relative path. non-trivial = golden entries actually rewritten and verified, counted")
+	r.Set("rule", "every script with 1 or 2 comparison lines (thorough: 3 over a reduced alphabet) from 7 kinds (cmp stdout / stderr / file against an archive golden, the same golden through another path spelling, negated cmp, cmpenv, cmp against a file outside the archive) x 14 actual contents (empty, no final newline, marker lines, a CRLF marker line, lines that start like a marker but are none, quoted-looking, CRLF, unquotable) x golden matching or not; untouched entries before, between and after; batches of two scripts in one RunT call; archives that repeat the first golden's name; scripts ended early by stop after the comparisons; scripts that make their first comparison twice; golden entries whose archive name holds a variable reference ($exe, ${nosuchvar}) that expands to nothing; golden entries named stdout / stderr / ttyout; Params.WorkdirRoot given as a relative path; an earlier entry g0 next to the golden ./g0; script files not in the form Format writes (padded marker, no final newline). non-trivial = golden entries actually rewritten and verified, counted")
 	r.Set("golden_entries_rewritten_and_verified", st.updated)
 	r.Set("of_which_quoted", st.quoted)
 	r.Set("entries_verified_untouched", st.untouched)
